@@ -4,34 +4,30 @@ CONSTANTS
   StaticCfg <- EvmCfg
   Dev = {"RefundTruncatedDust"}
   Family = "evm"
-  EvmChain = "ethereum"
-  MaxLen = 5
-  Amts = {101}
-  Fees = {3}
+  EvmChain = "bsc"
+  MaxLen = 90
+  Amts = {10, 101}
+  Fees = {0, 3}
   Users = {"a3"}
-  SendChains = {"ethereum"}
-  Denoms = {"hub"}
-  DepChains = {"ethereum"}
+  SendChains = {"bsc"}
+  Denoms = {"usd", "hub"}
+  DepChains = {"bsc"}
   DepDests = {"hub"}
   MaxSends = 8
   MaxDeposits = 5
   MaxBlocks = 30
   Orchs = {"o1", "o2", "o3"}
   Exts = {"e1", "e2", "e3"}
-  KeyChains = {"ethereum"}
+  KeyChains = {"bsc"}
   KeyVariants = {"good"}
   DepAmts = {40}
   DepFees = {0}
   WithKeysAndPrices = FALSE
   FeePaids = {1}
-  StakePowers = {1, 3}
+  StakePowers = {1, 2, 3}
   WatchNames = {}
-  KeepHist = FALSE
-  TwoLevel = FALSE
-  EmitScripts = FALSE
-VIEW ViewEvm
-INVARIANT InStepInv
-INVARIANT LogInv
-INVARIANT WithdrawnNeverExecutable
-INVARIANT SolvencyEvm
+  KeepHist = TRUE
+  TwoLevel = TRUE
+  EmitScripts = TRUE
+CONSTRAINT Emit
 CHECK_DEADLOCK FALSE
